@@ -33,6 +33,7 @@ def items_of(t, i):
         "TieS": [("struct", f"#[typeshare]\npub struct Same {{ pub from{i}: u32 }}\n")],
         "TieE": [("enum", f"#[typeshare]\npub enum Same {{ V{i} }}\n")],
         "Ref": [("struct", f"#[typeshare]\npub struct R{i} {{ pub r: M1 }}\n")],
+        "Bad": [],
     }[t]
 
 
@@ -41,6 +42,9 @@ def render_tree(tree, mode):
     for i, t in enumerate(tree, 1):
         crate = f"c{i % 2}" if mode == "multi" else f"d{i}"
         marker = "" if t == "Conly" else f"#[typeshare]\npub struct M{i} {{ pub m: u32 }}\n"       # Conly: a module of nothing but constants
+        if t == "Bad":          # not UTF-8: reading it fails before anything is parsed
+            files[f"{crate}/src/f{i}.rs"] = b"// caf\xe9 \xff\xfe\n#[typeshare]\npub struct Unread { pub a: u32 }\n"
+            continue
         body = marker + "".join(x[1] for x in items_of(t, i))
         if mode == "multi" and t == "Ref":
             body = f"use c1::M1;\n" + body
@@ -93,6 +97,8 @@ def features(tree, ignore_tie=False):
     in the sub-classes that keep the relative arrival order of the tied files fixed (ignore_tie)."""
     if has_tie(tree) and not ignore_tie:
         return "same-name-same-kind"
+    if "Bad" in tree:
+        return "unreadable-file"
     f = []
     if sum(1 for t in tree if t in ("C", "SC", "Conly")) >= 2:
         f.append("consts-in-several-files")
@@ -179,7 +185,7 @@ def run(chk):
         cli.make_tree(os.path.join(d, "src_root"), render_tree(tree, mode))
         out = []
         for c in perms:
-            order = ",".join((f"C{p}" if tree[p - 1] == "Conly" else f"M{p}") for p in c["perm"])
+            order = ",".join((f"C{p}" if tree[p - 1] == "Conly" else "" if tree[p - 1] == "Bad" else f"M{p}") for p in c["perm"])
             r, sha, _ = run_once(d, lang, mode, {"TYPESHARE_VERIF_ORDER": order, "TYPESHARE_VERIF_THREADS": "2"}, "p" + "".join(map(str, c["perm"])))
             out.append((c, r, sha))
         return idx, tree, lang, mode, out
@@ -193,6 +199,8 @@ def run(chk):
         for c, r, sha in out:
             if r["exit"] == "error" and "constants are not supported" in r["stderr"]:
                 sha = "refused:constants"          # a documented refusal (Kotlin/Swift/Scala); it must be the same outcome under every arrival order
+            elif "Bad" in tree and r["exit"] in ("ok", "error"):
+                sha = sha if r["exit"] == "ok" else "refused:unreadable-input"      # whichever it is, it is the same under every arrival order
             elif r["exit"] != "ok":
                 raise ToolError(f"typeshare failed on a C06 tree {tree} ({lang}, {mode}): {r['stderr'][-300:]}")
             col.add(f"tree{idx}", sha, {"mode": mode, "dim": "arrival-order", "features": features(tree), "lang": lang,
@@ -204,14 +212,28 @@ def run(chk):
             shas.setdefault(sha, []).append(c)
         ident = [sha for sha, cs in shas.items() if any(c["perm"] == sorted(c["perm"]) for c in cs)]
         for c, r, sha in out:
-            if mode == "single" and lang in ("typescript", "go", "python") and ident and (sha == ident[0]) != c["predict_same"]:
+            if mode == "single" and "Bad" not in tree and lang in ("typescript", "go", "python") and ident and (sha == ident[0]) != c["predict_same"]:
                 drift += 1
                 chk.model_drift(f"DataPath predicts same={c['predict_same']} for tree {tree} arrival {c['perm']}, real output same={sha == ident[0]}")
     chk.extra["model_drift_count"] = drift
 
     # impl -> spec: thread counts, fresh processes, re-splits
     rng = chk.rng
-    trees = [t for t in by_tree if not any(x in ("TieS", "TieE") for x in t)]
+    trees = [t for t in by_tree if not any(x in ("TieS", "TieE", "Bad") for x in t)]
+    bad_trees = [t for t in by_tree if "Bad" in t and not any(x in ("TieS", "TieE") for x in t)]
+    # a tree with an unreadable file, many times over and with 1..16 walker threads: one outcome (incl. which files made it out)
+    for k, tree in enumerate(rng.sample(sorted(bad_trees), min(len(bad_trees), 6 if thorough else 3))):
+        lang = "typescript"
+        big = [t for t in tree if t != "Bad"] * 12 + ["Bad"] + [t for t in tree if t != "Bad"] * 12
+        d = os.path.join(work, f"bad{k}")
+        cli.make_tree(os.path.join(d, "src_root"), render_tree(big, "single"))
+        for th in (1, 2, 4, 8, 16):
+            for rep in range(3 if thorough else 2):
+                r, sha, _ = run_once(d, lang, "single", {"TYPESHARE_VERIF_THREADS": str(th)}, f"th{th}_{rep}")
+                if r["exit"] not in ("ok", "error"):
+                    continue          # a panic / hang is C07's business
+                col.add(f"badtree{k}", sha if r["exit"] == "ok" else "refused:unreadable-input",
+                        {"mode": "single", "dim": "thread-count", "features": "unreadable-file", "lang": lang, "detail": f"tree {big[:3]}..x{len(big)} threads {th} rep {rep}"})
     sample = rng.sample(sorted(trees), min(len(trees), 24 if thorough else 8))
     for k, tree in enumerate(sample):
         lang = langs[k % 6]
